@@ -123,7 +123,16 @@ LAUNCH_PIPES = [
 
 
 def produce_launch(spec: Dict[str, Any], tdir: str) -> List[List[Dict[str, Any]]]:
-    """Run a launch through the CLI; return the trace as a list of per-file record lists in emission order."""
+    """Run a launch through the CLI; return the trace as a list of per-file record lists in emission order.
+    With spec['retry'] the launch is run twice under one launch id (attempt 1, then attempt 2 which may fail elsewhere)."""
+    if spec.get("retry"):
+        out: List[List[Dict[str, Any]]] = []
+        for att, fail in ((1, spec.get("fail")), (2, spec.get("fail2"))):
+            sub = os.path.join(tdir, f"attempt{att}")
+            os.makedirs(sub)
+            one = dict(spec, fail=fail, retry=False, cli=["--run-space-launch-id", "retried-launch", "--run-space-attempt", str(att)])
+            out += produce_launch(one, sub)
+        return out
     n, fail = spec["runs"], spec.get("fail")
     divisors = [2.0 + i for i in range(n)]
     if fail is not None and fail < n:
@@ -132,7 +141,7 @@ def produce_launch(spec: Dict[str, Any], tdir: str) -> List[List[Dict[str, Any]]
     out = "trace.ser.jsonl" if spec["mode"] == "file" else "traces"
     cfg = clidrv.config_mapping(LAUNCH_PIPES[spec["pipe"] % len(LAUNCH_PIPES)], run_space=rs, trace={"driver": "jsonl", "output_path": out})
     clidrv.write_yaml(os.path.join(tdir, "p.yaml"), cfg)
-    clidrv.run_inprocess(["run", "p.yaml", "-q"], tdir)
+    clidrv.run_inprocess(["run", "p.yaml", "-q"] + list(spec.get("cli") or []), tdir)
     if spec["mode"] == "file":
         return [tracelib.read_jsonl(os.path.join(tdir, out))["records"]]
     files = sorted(os.listdir(os.path.join(tdir, out)))
@@ -208,6 +217,20 @@ def examine(files: List[List[Dict[str, Any]]], meta: Dict[str, Any], data, col: 
         got = aggregate([emission[i] for i in order])["first"]
         col.count({"t": trace_key, "order": order}, labs0 + ["order:" + kind], nontriv and len(order) >= 3,
                   sample=dict(sample, order=order))
+        if variant < 4 and order:
+            # the same order fed to one long-lived aggregator that is finalised after every record
+            tail2 = TraceAggregator()
+            for i in order:
+                tail2.ingest(copy.deepcopy(emission[i]))
+                as_map(tail2)
+            col.labels["tailing_order"] += 1
+            got_t = as_map(tail2)
+            if got_t != got:
+                diff = sorted(k for k in set(got_t) | set(got) if got_t.get(k) != got.get(k))
+                g, b = got_t.get(diff[0], {}), got.get(diff[0], {})
+                fields = sorted(f for f in set(g) | set(b) if g.get(f) != b.get(f))
+                col.add("tailing_aggregator_differs_from_fresh", {"entity": diff[0].split(":")[0], "fields": fields[:3], "kind": meta["kind"], "order_kind": kind},
+                        {"meta": meta, "order": order, "records": emission, "tailing": True}, {k: got_t.get(k) for k in diff[:1]}, {k: got.get(k) for k in diff[:1]})
         if got != base:
             diff = sorted(k for k in set(got) | set(base) if got.get(k) != base.get(k))
             fields = []
@@ -222,7 +245,9 @@ def examine(files: List[List[Dict[str, Any]]], meta: Dict[str, Any], data, col: 
 def c13_case(draw):
     if draw(st.integers(0, 3)) == 0:
         return {"kind": "launch", "runs": draw(st.integers(1, 4)), "fail": draw(st.sampled_from([None, None, 0, 1, 2, 3])),
-                "mode": draw(st.sampled_from(["file", "dir"])), "pipe": draw(st.integers(0, 2))}
+                "mode": draw(st.sampled_from(["file", "dir"])), "pipe": draw(st.integers(0, 2)),
+                # a retried launch: the same launch id with attempt 1 and attempt 2, aggregated together
+                "retry": draw(st.sampled_from([False, True, False])), "fail2": draw(st.sampled_from([None, 0, None, 1]))}
     c = draw(gen.case(max_nodes=6, rare=True))
     return {"kind": "single", "case": c, "detail": draw(st.sampled_from(["hash", "all"]))}
 
@@ -233,6 +258,8 @@ def check_case(spec: Dict[str, Any], data, col: Collector, workroot: str = ".") 
         if spec["kind"] == "launch":
             files = produce_launch(spec, tdir)
             meta = dict(spec, failing=spec.get("fail") is not None and spec["fail"] < spec["runs"])
+            if spec.get("retry"):
+                col.labels["retried_launch"] += 1
         else:
             r = tracelib.run_traced({k: spec["case"][k] for k in ("nodes", "ctx", "data")}, spec.get("detail", "hash"), "file", tdir)
             if not r["constructed"] or not r["traces"]:
@@ -297,7 +324,18 @@ def replay(case: Dict[str, Any]) -> List[Dict[str, Any]]:
             emission = [r for f in produce_launch(meta, tdir) for r in f]
         else:
             return []
-        if case.get("tailing"):
+        if case.get("tailing") and "order" in case:
+            from semantiva.trace.aggregation.aggregator import TraceAggregator
+
+            order = [i for i in case["order"] if i < len(emission)]
+            tail2 = TraceAggregator()
+            for i in order:
+                tail2.ingest(copy.deepcopy(emission[i]))
+                as_map(tail2)
+            fresh = aggregate([emission[i] for i in order])["first"]
+            if as_map(tail2) != fresh:
+                col.add("tailing_aggregator_differs_from_fresh", {"entity": "replayed"}, case, as_map(tail2), fresh)
+        elif case.get("tailing"):
             from semantiva.trace.aggregation.aggregator import TraceAggregator
 
             tail = TraceAggregator()
@@ -333,5 +371,5 @@ def shrink_candidates(case):
 
 
 def label_requirements(tier: str) -> Dict[str, Any]:
-    return {"kind:launch": 0.1, "kind:single": 0.3, "failing": 0.2, "succeeding": 0.2, "mode:dir": 0.03, "prefix": 0.1,
+    return {"retried_launch": 20, "tailing_order": 500, "kind:launch": 0.1, "kind:single": 0.3, "failing": 0.2, "succeeding": 0.2, "mode:dir": 0.03, "prefix": 0.1,
             "order:permutation": 0.1, "order:interleaving": 0.1, "order:subset_permutation": 0.1}
